@@ -87,6 +87,7 @@ const (
 	VerifTraceStored     = iota // a = seqno stored in the cache, b = cache index
 	VerifTraceLoopNACK          // a = first, b = bitmap sent by the receive loop
 	VerifTraceWriterNACK        // a = seqno sent by nackWriter
+	VerifTraceWithheld          // a = source seqno a down track (ssrc) dropped from its packet map
 )
 
 var verifTraceHook atomic.Pointer[func(ssrc uint32, kind int, a, b uint16)]
@@ -104,6 +105,13 @@ func verifTrace(track *rtpUpTrack, kind int, a, b uint16) {
 	f := verifTraceHook.Load()
 	if f != nil {
 		(*f)(uint32(track.track.SSRC()), kind, a, b)
+	}
+}
+
+func verifTraceDown(down *rtpDownTrack, kind int, a uint16) {
+	f := verifTraceHook.Load()
+	if f != nil {
+		(*f)(uint32(down.ssrc), kind, a, 0)
 	}
 }
 
